@@ -61,7 +61,7 @@ Init(c) ==
     ghost |-> {},            \* files that lost their last host name while referenced, file-handle mode
     taint |-> {},            \* numbers A says nothing about any more (use_host_ino take-over of a ghost's number)
     hnd   |-> <<>>,          \* live handles: handle id -> number id
-    hdir  |-> {},            \* those opened by opendir (the host itself answers EBADF to a write on a directory descriptor)
+    hro   |-> {},            \* those not opened for writing (opendir, O_RDONLY): the host itself answers EBADF to a write through them
     base  |-> c.base,
     susp  |-> "-",           \* operation blamed for a surplus found at the next quiescent point
     rank  |-> 0,
@@ -173,9 +173,9 @@ Noted(S, op, status, failat) ==
   [S EXCEPT !.lastop = Label(op, status), !.susp = IF r > S.rank THEN Label(op, status) ELSE @, !.rank = Max(@, r)]
 
 \* open / opendir / create returned handle h (0 = none) for number k
-OpenH(S, op, k, h) ==
+OpenH(S, op, k, h, ro) ==
   IF h = 0 THEN S
-  ELSE [S EXCEPT !.hnd = Upd(@, h, k), !.hdir = IF op = "opendir" THEN @ \cup {h} ELSE @ \ {h},
+  ELSE [S EXCEPT !.hnd = Upd(@, h, k), !.hro = IF ro THEN @ \cup {h} ELSE @ \ {h},
                  !.viol = @ \cup (IF h \in DOMAIN S.hnd THEN {Sig4("C15", S.cfg.tag, op, "handle-not-distinct")} ELSE {})]
 
 \* a request carrying (k, h) answered st
@@ -183,7 +183,7 @@ UseH(S, op, k, h, st) ==
   IF ~HandleMode(S, op) THEN S
   ELSE LET live == h \in DOMAIN S.hnd /\ S.hnd[h] = k
            bad == (IF ~live /\ st = "OK" THEN {Sig4("C15", S.cfg.tag, op, IF h \in DOMAIN S.hnd THEN "handle-accepted-with-other-inode" ELSE "released-handle-accepted")} ELSE {})
-             \cup (IF live /\ st = "EBADF" /\ FilesAt(S, k) \ S.ghost # {} /\ k \notin S.taint /\ ~(op = "write" /\ h \in S.hdir)
+             \cup (IF live /\ st = "EBADF" /\ FilesAt(S, k) \ S.ghost # {} /\ k \notin S.taint /\ ~(op = "write" /\ h \in S.hro)
                    THEN {Sig4("C15", S.cfg.tag, op, "live-handle-refused")} ELSE {})
        IN [S EXCEPT !.viol = @ \cup bad]
 
@@ -196,16 +196,19 @@ HandleFile(S, op, k, h, st, af) ==
                   THEN {Sig4("C15", S.cfg.tag, op, "handle-denotes-other-file")} ELSE {}
        IN [S EXCEPT !.viol = @ \cup bad]
 
+\* RELEASE / RELEASEDIR of (k, h) answered st. A release of a handle the client holds ALWAYS ends the handle, whatever the
+\* answer (the client does not look at it): what the server still holds for it afterwards shows in the census. Only EBADF
+\* -- "no such handle" -- for a handle the client does hold is itself an answer A rejects.
 ReleaseH(S, op, k, h, st) ==
   IF ~HandleMode(S, op) THEN S
   ELSE LET live == h \in DOMAIN S.hnd /\ S.hnd[h] = k
            bad == (IF ~live /\ st = "OK" THEN {Sig4("C15", S.cfg.tag, op, IF h \in DOMAIN S.hnd THEN "handle-accepted-with-other-inode" ELSE "released-handle-accepted")} ELSE {})
-             \cup (IF live /\ st # "OK" THEN {Sig4("C15", S.cfg.tag, op, "release-refused")} ELSE {})
+             \cup (IF live /\ st = "EBADF" THEN {Sig4("C15", S.cfg.tag, op, "release-refused")} ELSE {})
        IN [S EXCEPT !.viol = @ \cup bad,
-                    !.hnd = IF st = "OK" /\ h \in DOMAIN @ THEN [x \in DOMAIN @ \ {h} |-> @[x]] ELSE @]
+                    !.hnd = IF (live \/ st = "OK") /\ h \in DOMAIN @ THEN [x \in DOMAIN @ \ {h} |-> @[x]] ELSE @]
 
 Destroy(S) ==
-  [S EXCEPT !.up = FALSE, !.susp = "destroy", !.rank = 2, !.leakop = "-", !.hnd = <<>>, !.hdir = {}, !.refs = <<>>, !.num = <<>>, !.at = <<>>, !.ghost = {}, !.taint = {}, !.slack = 0, !.seen = {}, !.succ = <<>>, !.nameoff = <<>>, !.offname = <<>>]
+  [S EXCEPT !.up = FALSE, !.susp = "destroy", !.rank = 2, !.leakop = "-", !.hnd = <<>>, !.hro = {}, !.refs = <<>>, !.num = <<>>, !.at = <<>>, !.ghost = {}, !.taint = {}, !.slack = 0, !.seen = {}, !.succ = <<>>, !.nameoff = <<>>, !.offname = <<>>]
 
 \* init answered st. After destroy it opens the next session. A second INIT without a DESTROY changes nothing the client
 \* holds: inodes, counts and open handles stay as they are (handles stay valid and distinct); only DESTROY releases them.
